@@ -387,7 +387,7 @@ def asmIterate (st : Static) (defs : Defs) : Nat → RCtx → List AstNode → E
   | 0, _, _, _, _, _, _ => .error "model: out of fuel"
   | fuel + 1, ctx, nodes, ectx, labels, budget, iter =>
     let finish (labels : List (String × Value)) : Except String Value :=
-      match asmOnce st defs fuel { ctx with first := false, last := true } nodes ectx labels ctx.cur (⟨0, some 0⟩) false with
+      match asmOnce st defs fuel { ctx with first := false, last := ctx.last } nodes ectx labels ctx.cur (⟨0, some 0⟩) false with
       | .error e => .error e
       | .ok (v, unstable, _) =>
         if !unstable then .ok v
@@ -395,7 +395,7 @@ def asmIterate (st : Static) (defs : Defs) : Nat → RCtx → List AstNode → E
         else .error "`asm` block did not converge"
     if iter > budget then finish labels
     else
-      match asmOnce st defs fuel { ctx with first := iter == 1, last := iter == budget } nodes ectx labels ctx.cur (⟨0, some 0⟩) false with
+      match asmOnce st defs fuel { ctx with first := iter == 1, last := ctx.last && iter == budget } nodes ectx labels ctx.cur (⟨0, some 0⟩) false with
       | .error e => .error e
       | .ok (_, unstable, labels) =>
         if !unstable then finish labels
